@@ -323,6 +323,25 @@ def extract(index, modules=('core', 'parser', 'validation', '__init__', 'base_da
 OTHER = '<other>'
 
 
+def _infeasible(brow, val, none_false):
+    """the combination makes a predicate `h(.., v, ..)` true for a v that is None although h returns False for None there"""
+    nones = {v for (kind, v), x in val.items() if kind == 'sym' and x is None}
+    if not nones:
+        return False
+    for a, truth in brow.items():
+        if not truth or a.startswith('raises: '):
+            continue
+        try:
+            e = ast.parse(a, mode='eval').body
+        except SyntaxError:
+            continue
+        if isinstance(e, ast.Call) and isinstance(e.func, ast.Name):
+            for i, arg in enumerate(e.args):
+                if (e.func.id, i) in none_false and norm(arg) in nones:
+                    return True
+    return False
+
+
 def _classify(text):
     """atom text -> ('num', var, fn) | ('sym', var, fn) | ('truth', var) | ('bool', text); fn maps a value of var to the atom's truth"""
     try:
@@ -370,7 +389,7 @@ def _replace(expr, target):
     return ast.fix_missing_locations(out)
 
 
-def compare(ref, cur, cap=300000):
+def compare(ref, cur, cap=300000, none_false=()):
     """ref / cur: {'atoms', 'rows'} -> (lost, gained, note).  Atoms that compare one expression with integer or string constants
     are not opaque: the expression becomes a variable ranging over the constants mentioned on either side (plus neighbours /
     an `other` value), so `len(x) >= 1` and `len(x) > 1`, or `v == 4` and `v == 5`, are compared by meaning.  Opaque atoms
@@ -448,6 +467,8 @@ def compare(ref, cur, cap=300000):
             rbits = sum((1 << i) for i, a in enumerate(ra) if truth(a, val, brow))
             cbits = sum((1 << i) for i, a in enumerate(ca) if truth(a, val, brow))
             r_ref, r_cur = rbits in rrows, cbits in crows
+            if r_ref != r_cur and none_false and _infeasible(brow, val, none_false):
+                continue
             if r_ref != r_cur:
                 desc = dict(brow)
                 desc.update({'%s = %r' % (v, x): True for (_, v), x in val.items()})
@@ -569,3 +590,32 @@ def _consts(nodes):
                         out.append(-a.operand.value)
     return sorted(out)
 
+
+def false_on_none(index):
+    """{(function name, parameter position)}: module-level predicates that return False when that argument is None -- the first
+    statement of the function dereferences the parameter (`p.method(...)`) inside a try whose handler for AttributeError
+    returns False / None"""
+    out = set()
+    for fq, fi in index.functions.items():
+        if fi.cls is not None or fi.outer is not None or not fi.node.body:
+            continue
+        body = [b for b in fi.node.body if not (isinstance(b, ast.Expr) and isinstance(b.value, ast.Constant))]
+        if not body or not isinstance(body[0], ast.Try) or not body[0].body:
+            continue
+        tr = body[0]
+        handled = False
+        for h in tr.handlers:
+            names = [] if h.type is None else [norm(x).split('.')[-1] for x in (h.type.elts if isinstance(h.type, ast.Tuple) else [h.type])]
+            if (h.type is None or 'AttributeError' in names or 'Exception' in names) and len(h.body) == 1 and \
+                    isinstance(h.body[0], ast.Return) and (h.body[0].value is None or (
+                        isinstance(h.body[0].value, ast.Constant) and h.body[0].value.value in (False, None))):
+                handled = True
+        if not handled:
+            continue
+        first = tr.body[0]
+        for i, a in enumerate(fi.node.args.args):
+            for x in ast.walk(first):
+                if isinstance(x, ast.Attribute) and isinstance(x.value, ast.Name) and x.value.id == a.arg and \
+                        isinstance(getattr(x, '_parent', None), ast.Call):
+                    out.add((fi.name, i))
+    return out
